@@ -10,7 +10,7 @@ from mir import short, is_place, op_local
 LEVEL = 'other'
 EXPLANATION = ('Decides necessary structural clauses of C05 (not panic-freedom as a whole): R5a-R5f. (R5a) every '
                'Result<ConstrainedDecimal<C>,_>::unwrap/expect in product code is an infallibility belief; the sign of the checked '
-               'expression is computed in the lattice of subsets of {-,0,+} (constants evaluated, + - * / neg abs max min by sign algebra, '
+               'expression is computed in the lattice of subsets of {-,0,+} (constants evaluated, + - * neg abs max min by sign algebra, a quotient may be zero, '
                'rounding weakens strict signs, edge refinement on is_zero/is_sign_* tests) and must be within C; generic wrappers '
                '(c_round_to_cent<T>, c_maybe_round_to_effective_cent<T>) are judged per instantiation reaching them from any call site. '
                '(R5b) the Result/Option produced by a text parser (Decimal::from_str, str::parse, Date::parse, json::parse, acb\'s own '
@@ -22,9 +22,10 @@ EXPLANATION = ('Decides necessary structural clauses of C05 (not panic-freedom a
                'produced the Captures (patterns rebuilt from program constants incl. format! templates). Not decided: every other panic site (map look-ups, the other '
                'asserts, other slice indices), Decimal overflow, termination.')
 TRUSTED_BASE = ['rustc nightly MIR construction and trait resolution', 'the ConstrainedDecimal type invariant (decided by C04/R4a)',
-                'sign algebra of rust_decimal +,-,*,/ in exact arithmetic; rounding never changes the sign but may reach zero']
-ASSUMPTIONS = ['products/quotients of strictly signed values do not underflow to zero inside the property\'s practical ranges '
-               '(magnitude < 1e12, <= 10 decimal places): such sites are reported as "exact-arithmetic only" in the evidence']
+                'sign algebra of rust_decimal +,-,* in exact arithmetic; a quotient may round to zero; rounding never changes the sign but may reach zero']
+ASSUMPTIONS = ['a PRODUCT of strictly signed values does not underflow to zero (two factors taken from input fields are >= 1e-10 each; '
+               'longer products are an assumption): such sites are reported as "exact-arithmetic only" in the evidence. A QUOTIENT is not '
+               'covered by this assumption: it is treated as possibly zero (1e-10 / 1e19 rounds to 0 in 28 digits)']
 
 NEG, ZERO, POS = '-', '0', '+'
 TOP = frozenset([NEG, ZERO, POS])
@@ -92,6 +93,9 @@ def round_s(a):
 CD_RE = re.compile(r'ConstrainedDecimal<(?:util::decimal::constraint::)?(\w+)>')
 ROUNDERS = re.compile(r'^rust_decimal::Decimal::(round|round_dp|round_dp_with_strategy|round_sf|round_sf_with_strategy|trunc|'
                       r'trunc_with_scale|floor|ceil|rescale|normalize)$|util::math::(round_to_cent|maybe_round_to_effective_cent)$')
+
+
+WEAK_DIV = [True]      # switched off only to ask "would this hold in exact arithmetic?" when a violation is classified
 
 
 class SignEval:
@@ -334,6 +338,9 @@ class SignEval:
                 if op == 'Div':
                     b = b - {ZERO} or b     # division by zero is a different panic
                 r = lift2(mul1, a, b)
+                if WEAK_DIV[0] and op == 'Div' and r - {ZERO}:
+                    # a quotient of in-range amounts can be smaller than 1e-28 (1e-10 / 1e19): rust_decimal rounds it to zero
+                    r = r | {ZERO}
                 if ZERO not in r and ZERO not in a:
                     self.inexact = True
                 return r
@@ -809,12 +816,28 @@ def run(prog, rep, tier='quick', config='default'):
             desc = 'try_from::<%s>(e).unwrap(): sign(e) = %s%s%s' % (inst or cname, sname(sign), ' after rounding' if ev.rounded else '', via)
             if sign <= want:
                 if ev.inexact:
-                    rep.ok('R5a', k, where=where, fn=fn.name, detail=desc + ' — justified in exact arithmetic (a product/quotient of strictly '
-                           'signed values; underflow to zero needs magnitudes below 1e-28, outside the property\'s ranges)')
+                    rep.ok('R5a', k, where=where, fn=fn.name, detail=desc + ' — justified in exact arithmetic (a product of strictly '
+                           'signed values; underflow to zero needs an exact result below 1e-28)')
                 else:
                     rep.ok('R5a', k, where=where, fn=fn.name, detail=desc + ' — justified')
             else:
                 full = 'C05|R5a|' + k
+                # would the site hold if quotients could not underflow?  Then the only way to fail is a quotient below 1e-28 rounding
+                # to zero: reported under a key of its own, so that a worse violation at the same site stays distinguishable
+                WEAK_DIV[0] = False
+                try:
+                    ev_x = SignEval(prog, fn, subst)
+                    ev_x.set_site(tf.bb)
+                    exact_ok = ev_x.eval_op(tf.args[0]) <= want
+                    if not exact_ok and full in reviewed and reviewed[full].get('quotient_may_underflow') and requirements_hold(fn, ev_x, tf, reviewed[full], prog):
+                        exact_ok = True
+                finally:
+                    WEAK_DIV[0] = True
+                if exact_ok and (full not in reviewed or reviewed[full].get('quotient_may_underflow')):
+                    rep.violation('R5a', k + '|quotient-may-underflow', where=where, fn=fn.name,
+                                  detail=desc + ' is within %s only if the quotient it comes from cannot round to zero; a quotient of two amounts '
+                                  'inside the property\'s ranges can be smaller than 1e-28 (1e-10 / 1e19), rust_decimal then answers 0 and the unwrap panics' % sname(want))
+                    continue
                 if full in reviewed and not requirements_hold(fn, ev, tf, reviewed[full], prog):
                     rep.violation('R5a', k, where=where, fn=fn.name, detail=desc + ' is not within %s, and the structural facts the reviewed '
                                   'justification relies on (%s) no longer hold' % (sname(want), reviewed[full].get('requires')))
@@ -1108,6 +1131,22 @@ def captured_refine(prog, g, operand, sign):
             elif pred in ('is_zero', 'is_negative', 'is_positive'):
                 s2 = s2 - st
         out |= s2
+    out = out or sign
+    # ... and so do the tests of the same captured value made by a `filter` predicate the item / payload passed before it reached
+    # this closure (`opt.filter(|_| is_positive(&s.balance)).map(|x| x / s.balance)`): both closures borrow the value, nothing can
+    # change it in between
+    def atom(p, c):
+        if c.short in sets and c.args:
+            po = mir.provenance(p, c.args[0], pass_through={'deref', 'clone', 'borrow'})
+            if {p.upvar_names.get(u) for u in po.upvars} - {None} == {nm} and own(po.fields) == vf:
+                return (c.short, 'bool')
+        return None
+    for pred, truth in mir.filter_guarantees(prog, g, atom).items():
+        st = frozenset(sets[pred])
+        if truth:
+            out = out & st
+        elif pred in ('is_zero', 'is_negative', 'is_positive'):
+            out = out - st
     return out or sign
 
 
